@@ -1580,6 +1580,20 @@ func runC15(c *Ctx) {
 		crashed++
 		c15CrashDuringInvoke(c, rt, pr, crashed)
 	}
+	// the lock file cannot be created / two concurrent starts (harness/c15_lockerr.go)
+	for _, pr := range pairs {
+		if pr.pa != nil {
+			nle, nsr := 2, 15
+			if c.Thorough {
+				nle, nsr = 10, 200
+			}
+			for k := 0; k < nle; k++ {
+				c15LockCreateError(c, rt, pr, k)
+			}
+			c15StartRace(c, rt, pr, nsr)
+			break
+		}
+	}
 	// the invocation text itself: a cosmetic change there is refused by the byte comparison
 	for _, pr := range pairs {
 		if pr.inTop && !pr.semantic && pr.pa != nil {
